@@ -112,6 +112,38 @@ func (tg *txnGen) where(t *dyn.Table) []Cond {
 	for _, u := range us {
 		rows = append(rows, tg.state[t.Name][u])
 	}
+	if len(us) > 1 && g.Chance(0.15) {
+		// several conditions, one in the middle (or the first) that no row satisfies, around it conditions that rows do
+		// satisfy: the conjunction selects nothing, whatever the conditions after the failing one select
+		holds := func(c Cond) int {
+			n := 0
+			for i, u := range us {
+				if rfcMatch(u, rows[i], []Cond{c}) {
+					n++
+				}
+			}
+			return n
+		}
+		var some, none []Cond
+		for k := 0; k < 40 && (len(some) < 3 || len(none) < 1); k++ {
+			c := genCond(g, t.Cols, rows, us, tg.pool, 3)
+			if n := holds(c); n > 0 {
+				some = append(some, c)
+			} else {
+				none = append(none, c)
+			}
+		}
+		if len(some) >= 2 && len(none) >= 1 {
+			switch g.Intn(3) {
+			case 0:
+				return []Cond{some[0], none[0], some[1]}
+			case 1:
+				return []Cond{none[0], some[0], some[1]}
+			default:
+				return []Cond{some[0], some[1], none[0], some[len(some)-1]}
+			}
+		}
+	}
 	switch x := g.Intn(10); {
 	case x < 2:
 		return []Cond{}
@@ -153,6 +185,11 @@ func (tg *txnGen) txn(maxOps int) []TOp {
 	}
 	if g.Chance(0.07) {
 		if ops := tg.keepExisting(); len(ops) > 0 {
+			return ops
+		}
+	}
+	if g.Chance(0.07) {
+		if ops := tg.mixedDelete(); len(ops) > 0 {
 			return ops
 		}
 	}
@@ -397,6 +434,54 @@ func (tg *txnGen) keepExisting() []TOp {
 		ops = append(ops, TOp{Kind: "mutate", Table: t.Name, Where: byU, Muts: muts})
 		if g.Chance(0.3) {
 			ops = append(ops, TOp{Kind: "select", Table: t.Name, Where: []Cond{{Col: c.Name, Fn: "includes", Arg: val.VM([2]val.Atom{k1, zero})}}, Cols: []string{c.Name}})
+		}
+		return ops
+	}
+	return nil
+}
+
+// mixedDelete: a delete mutation that names elements (keys, pairs) the column holds together with ones it does not
+// hold - only the former are removed, and only they are part of the difference sent to update2 / update3 monitors.
+func (tg *txnGen) mixedDelete() []TOp {
+	g := tg.g
+	for _, ti := range g.R.Perm(len(tg.sc.Tables)) {
+		t := &tg.sc.Tables[ti]
+		us := tg.uuidsOf(t.Name)
+		var cols []val.Col
+		for _, c := range t.Cols {
+			if (c.K == 's' || c.K == 'm') && c.RefTable == "" && c.VRefTable == "" && !c.Immutable && (c.Max < 0 || c.Max >= 3) && len(c.Enum) == 0 && c.KT != 'b' {
+				cols = append(cols, c)
+			}
+		}
+		if len(us) == 0 || len(cols) == 0 {
+			continue
+		}
+		u := us[g.Intn(len(us))]
+		c := cols[g.Intn(len(cols))]
+		byU := []Cond{{Col: "_uuid", Fn: "==", Arg: val.VA(val.Uuid(u))}}
+		cur := tg.state[t.Name][u][c.Name]
+		var ops []TOp
+		held1, held2, absent := gen.AtomN(c.KT, 1), gen.AtomN(c.KT, 2), gen.AtomN(c.KT, 3+tg.pool)
+		if c.K == 's' {
+			if len(cur.Set) >= 2 && g.Chance(0.6) {
+				held1, held2 = cur.Set[0], cur.Set[1]
+			} else {
+				ops = append(ops, TOp{Kind: "update", Table: t.Name, Where: byU, Row: map[string]val.Val{c.Name: val.VS(held1, held2).Canon()}})
+			}
+			ops = append(ops, TOp{Kind: "mutate", Table: t.Name, Where: byU, Muts: []Mut{{Col: c.Name, Mutator: "delete", Arg: val.VS(held1, absent).Canon()}}})
+			return ops
+		}
+		v1, v2 := gen.AtomN(c.VT, 1), gen.AtomN(c.VT, 2)
+		ops = append(ops, TOp{Kind: "update", Table: t.Name, Where: byU, Row: map[string]val.Val{c.Name: val.VM([2]val.Atom{held1, v1}, [2]val.Atom{held2, v2}).Canon()}})
+		switch g.Intn(3) {
+		case 0: // by keys: one held, one not
+			ops = append(ops, TOp{Kind: "mutate", Table: t.Name, Where: byU, Muts: []Mut{{Col: c.Name, Mutator: "delete", Arg: val.VS(held1, absent).Canon()}}})
+		case 1: // by pairs: one held, one with the held key and another value, one absent
+			ops = append(ops, TOp{Kind: "mutate", Table: t.Name, Where: byU, Muts: []Mut{{Col: c.Name, Mutator: "delete",
+				Arg: val.VM([2]val.Atom{held1, v1}, [2]val.Atom{held2, v1}, [2]val.Atom{absent, v1}).Canon()}}})
+		default: // two mutations of the column in one operation, the second without effect
+			ops = append(ops, TOp{Kind: "mutate", Table: t.Name, Where: byU, Muts: []Mut{
+				{Col: c.Name, Mutator: "delete", Arg: val.VS(held1)}, {Col: c.Name, Mutator: "delete", Arg: val.VS(absent)}}})
 		}
 		return ops
 	}
